@@ -35,7 +35,8 @@ def run(cx):
                  ("R14e", "cache reset when a new id is stored; global configuration re-syncs synced palettes"),
                  ("R14f", "no_color: only the effect-free formatter"),
                  ("R14g", "lookup: unknown id -> default id; unresolved -> effect-free formatter"),
-                 ("R14h", "description grammar: <= 3 sections; modifier table")):
+                 ("R14h", "description grammar: <= 3 sections; modifier table"),
+                 ("R14i", "nested configuration dicts are flattened to the full dotted id of every item")):
         cx.rule(r, t)
     descr = cx.cls(REL, "_ColorConfColorDescr", "R14a")
     resolve = cx.func(REL, "_ColorConfColorDescr.resolve", "R14a")
@@ -53,6 +54,7 @@ def run(cx):
     cx.guard(_cache_and_sync, cx, repo, add)
     cx.guard(_lookup, cx, get_color, conf)
     cx.guard(_grammar, cx, descr, parse, parse_mod, repo)
+    cx.guard(_flatten_rule, cx, repo)
 
 
 # -------------------------------------------------------------------------------------- R14a / c / f
@@ -469,3 +471,121 @@ def _grammar(cx, descr, parse, parse_mod, repo):
     txt = norm(cn) if cn is not None else ""
     ok = "_ColorSequences._COLORS.keys()" in txt and "''" in txt and "'-'" in txt and "range(24)" in txt
     cx.ob("R14h", cn if cn is not None else descr, ok, "accepted names = formatter's names + '' + '-' + g0..g23" if ok else "accepted colour names are not derived from the formatter's table plus '', '-', greys")
+
+
+# -------------------------------------------------------------------------------------- R14i
+def _flatten_rule(cx, repo):
+    """ColorsConfig._flatten_dict(map[, prefix]) -> {dotted id: value}.  Claim, by induction over the nesting depth: the keys of
+    F(m, p) are p + path for every leaf path of m (components joined by '.').  Leaf step: the key stored for a string value is
+    p + key.  Nesting step: with the recursive call F(value, q) returning q + rest (induction hypothesis), every key that reaches
+    the result is p + key + '.' + rest.  Keys are compared as symbolic concatenations over the symbols P (incoming prefix), K (the
+    key of this level) and R (the rest of the path)."""
+    fn = cx.func(REL, "ColorsConfig._flatten_dict", "R14i")
+    ps = [a for a in params(fn) if a not in ("self", "cls")]
+    cx.need(1 <= len(ps) <= 2, "R14i", fn, "parameters (map[, prefix]) expected")
+    m_par = ps[0]
+    pre = ps[1] if len(ps) == 2 else None
+    if pre is not None:
+        d = fn.args.defaults
+        cx.need(len(d) == 1 and const(d[0], str) and d[0].value == "", "R14i", fn, "the prefix parameter must default to ''")
+        for c in [c for mm in repo.modules.values() for c in ast.walk(mm.tree) if isinstance(c, ast.Call) and call_name(c) == fn.name and enclosing_func(c) is not fn]:
+            ok = len(c.args) == 1 and not c.keywords
+            cx.ob("R14i", c, ok, "top-level call starts with the empty prefix" if ok else "a caller passes its own prefix to the flattening")
+    P = (("P",),) if pre is not None else ()
+
+    def sym(e, env):
+        if isinstance(e, ast.Constant) and isinstance(e.value, str):
+            return (e.value,) if e.value else ()
+        if isinstance(e, ast.Name):
+            return env.get(e.id)
+        if isinstance(e, ast.JoinedStr):
+            out = ()
+            for v in e.values:
+                if isinstance(v, ast.Constant):
+                    out += (v.value,) if v.value else ()
+                elif isinstance(v, ast.FormattedValue) and v.conversion == -1 and v.format_spec is None:
+                    x = sym(v.value, env)
+                    if x is None:
+                        return None
+                    out += x
+                else:
+                    return None
+            return out
+        if isinstance(e, ast.BinOp) and isinstance(e.op, ast.Add):
+            a, b = sym(e.left, env), sym(e.right, env)
+            return None if a is None or b is None else a + b
+        return None
+
+    def flat(parts):
+        out = []
+        for x in parts:
+            if isinstance(x, str) and out and isinstance(out[-1], str):
+                out[-1] += x
+            else:
+                out.append(x)
+        return tuple(out)
+
+    def show(parts):
+        return " + ".join(repr(x) if isinstance(x, str) else {"P": "<prefix>", "K": "<key>", "R": "<rest of path>"}[x[0]] for x in parts) or "''"
+
+    loops = [l for l in walk_local(fn) if isinstance(l, ast.For) and isinstance(l.iter, ast.Call) and call_name(l.iter) == "items" and is_name(l.iter.func.value, m_par)]
+    cx.need(len(loops) == 1 and isinstance(loops[0].target, ast.Tuple) and len(loops[0].target.elts) == 2 and all(isinstance(x, ast.Name) for x in loops[0].target.elts),
+            "R14i", fn, "loop `for key, value in map.items()`")
+    lp = loops[0]
+    kname, vname = lp.target.elts[0].id, lp.target.elts[1].id
+    rets = [r for r in walk_local(fn) if isinstance(r, ast.Return)]
+    cx.need(len(rets) == 1 and isinstance(rets[0].value, ast.Name), "R14i", fn, "one `return result`")
+    res = rets[0].value.id
+    env0 = {kname: (("K",),)}
+    if pre is not None:
+        env0[pre] = (("P",),)
+
+    def rec_prefix(call):
+        """symbolic prefix of what a recursive call returns"""
+        cx.need(call.args and is_name(call.args[0], vname), "R14i", call, "the recursive call must flatten the value of this entry")
+        parg = call.args[1] if len(call.args) > 1 else next((k.value for k in call.keywords if k.arg == pre), None)
+        if parg is None:
+            return ()
+        q = sym(parg, env0)
+        cx.need(q is not None, "R14i", call, "prefix argument of the recursive call is not a concatenation of prefix / key / constants")
+        return q
+    n = 0
+    for st in ast.walk(lp):
+        key_syms = None
+        where = None
+        if isinstance(st, ast.Assign) and len(st.targets) == 1 and isinstance(st.targets[0], ast.Subscript) and is_name(st.targets[0].value, res):
+            where = st
+            inner = [l for l in enclosing_loops(st) if l is not lp and l in list(ast.walk(lp))]
+            if not inner:
+                got = sym(st.targets[0].slice, env0)
+                want = P + (("K",),)
+                what = "leaf"
+            else:
+                cx.need(len(inner) == 1, "R14i", st, "one loop over the flattened sub-dictionary expected")
+                il = inner[0]
+                src = il.iter.func.value if isinstance(il.iter, ast.Call) and call_name(il.iter) == "items" else None
+                if isinstance(src, ast.Name):
+                    ds = [v for _, v in assignments(fn, src.id)]
+                    src = ds[0] if len(ds) == 1 else None
+                cx.need(isinstance(src, ast.Call) and call_name(src) == fn.name and isinstance(il.target, ast.Tuple) and isinstance(il.target.elts[0], ast.Name),
+                        "R14i", il, "inner loop must iterate over the items of the recursive call")
+                env = dict(env0)
+                env[il.target.elts[0].id] = rec_prefix(src) + (("R",),)
+                got = sym(st.targets[0].slice, env)
+                want = P + (("K",), ".", ("R",))
+                what = "nested"
+        elif isinstance(st, ast.Expr) and isinstance(st.value, ast.Call) and call_name(st.value) == "update" and is_name(st.value.func.value, res):
+            where = st
+            a = st.value.args[0] if len(st.value.args) == 1 else None
+            cx.need(isinstance(a, ast.Call) and call_name(a) == fn.name, "R14i", st, "result.update(<recursive call>) expected")
+            got = rec_prefix(a) + (("R",),)
+            want = P + (("K",), ".", ("R",))
+            what = "nested"
+        else:
+            continue
+        cx.need(got is not None, "R14i", where, "stored key is not a concatenation of prefix / key / constants")
+        n += 1
+        ok = flat(got) == flat(want)
+        cx.ob("R14i", where, ok, f"{what} item is stored under {show(flat(want))}" if ok else
+              f"{what} item is stored under {show(flat(got))} instead of {show(flat(want))}: part of the dotted path is lost or doubled for nested dictionaries")
+    cx.at_least("R14i", "stores into the flattened result", n, 2)
